@@ -20,6 +20,10 @@ pub struct Config {
     pub rmatch: bool,
     pub rop: bool,
     pub rderef: bool,
+    /// R-state: calls of these methods / paths get `state_arg` appended as last argument
+    pub state_methods: Vec<String>,
+    pub state_calls: Vec<String>,
+    pub state_arg: String,
 }
 
 fn strs(v: &Value) -> Vec<String> {
@@ -44,6 +48,9 @@ impl Config {
             rmatch: v["rmatch"].as_bool().unwrap_or(true),
             rop: v["rop"].as_bool().unwrap_or(true),
             rderef: v["rderef"].as_bool().unwrap_or(true),
+            state_methods: strs(&v["state_methods"]),
+            state_calls: strs(&v["state_calls"]).iter().map(|s| norm(s)).collect(),
+            state_arg: v["state_arg"].as_str().unwrap_or("").to_string(),
         };
         if c.prim_types.is_empty() {
             c.prim_types = [
@@ -88,6 +95,9 @@ pub struct Rewriter<'a> {
     scopes: Vec<HashMap<String, Kind>>,
     self_ref: bool,
     impl_self_ref: bool,
+    /// R-break: source range of a `loop` in tail position of the extracted body
+    pub tail_loop: Option<(usize, usize)>,
+    loop_depth_in_tail: Option<usize>,
 }
 
 fn binop_trait(op: &BinOp) -> Option<(&'static str, &'static str, bool)> {
@@ -142,6 +152,8 @@ impl<'a> Rewriter<'a> {
             scopes: vec![HashMap::new()],
             self_ref: false,
             impl_self_ref: false,
+            tail_loop: None,
+            loop_depth_in_tail: None,
         }
     }
 
@@ -403,7 +415,16 @@ impl<'a, 'ast> Visit<'ast> for Rewriter<'a> {
         }
     }
 
+    fn visit_visibility(&mut self, v: &'ast Visibility) {
+        // R-drop:vis -- `pub(crate)` / `pub(super)` become `pub` (the generated file is one crate)
+        if let Visibility::Restricted(r) = v {
+            let rg = self.r(r.span());
+            self.edits.replace(rg, vec![Piece::Lit("pub".into())], "R-drop:vis");
+        }
+    }
+
     fn visit_impl_item_fn(&mut self, f: &'ast ImplItemFn) {
+        self.visit_visibility(&f.vis);
         self.scopes.push(HashMap::new());
         for a in &f.attrs {
             self.visit_attribute(a);
@@ -500,6 +521,51 @@ impl<'a, 'ast> Visit<'ast> for Rewriter<'a> {
         self.scopes.pop();
     }
 
+    fn visit_expr_loop(&mut self, l: &'ast ExprLoop) {
+        let r = self.r(l.span());
+        if self.tail_loop == Some(r) && self.loop_depth_in_tail.is_none() {
+            self.loop_depth_in_tail = Some(0);
+            visit::visit_expr_loop(self, l);
+            self.loop_depth_in_tail = None;
+        } else {
+            if let Some(d) = self.loop_depth_in_tail.as_mut() {
+                *d += 1;
+            }
+            visit::visit_expr_loop(self, l);
+            if let Some(d) = self.loop_depth_in_tail.as_mut() {
+                *d -= 1;
+            }
+        }
+    }
+    fn visit_expr_while(&mut self, l: &'ast ExprWhile) {
+        if let Some(d) = self.loop_depth_in_tail.as_mut() {
+            *d += 1;
+        }
+        visit::visit_expr_while(self, l);
+        if let Some(d) = self.loop_depth_in_tail.as_mut() {
+            *d -= 1;
+        }
+    }
+    fn visit_expr_for_loop(&mut self, l: &'ast ExprForLoop) {
+        if let Some(d) = self.loop_depth_in_tail.as_mut() {
+            *d += 1;
+        }
+        visit::visit_expr_for_loop(self, l);
+        if let Some(d) = self.loop_depth_in_tail.as_mut() {
+            *d -= 1;
+        }
+    }
+    fn visit_expr_break(&mut self, b: &'ast ExprBreak) {
+        // R-break: the value of a `loop` in tail position is the function's result, so
+        // `break E` from that loop is `return E`
+        if self.loop_depth_in_tail == Some(0) && b.label.is_none() && b.expr.is_some() {
+            let r = self.r(b.break_token.span);
+            self.edits.replace(r, vec![Piece::Lit("return".into())], "R-break");
+            self.note("R-break", b.span());
+        }
+        visit::visit_expr_break(self, b);
+    }
+
     fn visit_expr_unary(&mut self, u: &'ast ExprUnary) {
         self.visit_expr(&u.expr);
         if self.cfg.rderef && matches!(u.op, UnOp::Neg(_)) {
@@ -554,8 +620,27 @@ impl<'a, 'ast> Visit<'ast> for Rewriter<'a> {
         }
     }
 
+    fn visit_expr_call(&mut self, c: &'ast ExprCall) {
+        if !self.cfg.state_arg.is_empty() {
+            let f = norm(&self.sf.slice(self.r(c.func.span())).to_string());
+            if self.cfg.state_calls.iter().any(|p| f == *p || f.ends_with(&format!("::{}", p))) {
+                let at = self.r(c.paren_token.span.close()).0;
+                let sep = if c.args.is_empty() { "" } else { ", " };
+                self.edits.insert(at, format!("{}{}", sep, self.cfg.state_arg), "R-state");
+                self.note("R-state", c.span());
+            }
+        }
+        visit::visit_expr_call(self, c);
+    }
+
     fn visit_expr_method_call(&mut self, m: &'ast ExprMethodCall) {
         let name = m.method.to_string();
+        if !self.cfg.state_arg.is_empty() && self.cfg.state_methods.contains(&name) {
+            let at = self.r(m.paren_token.span.close()).0;
+            let sep = if m.args.is_empty() { "" } else { ", " };
+            self.edits.insert(at, format!("{}{}", sep, self.cfg.state_arg), "R-state");
+            self.note("R-state", m.span());
+        }
         if self.cfg.rmatch && (name == "map_or_else" || name == "map_or") && m.args.len() == 2 {
             let a0 = &m.args[0];
             let a1 = &m.args[1];
@@ -568,12 +653,17 @@ impl<'a, 'ast> Visit<'ast> for Rewriter<'a> {
                     _ => None,
                 }
             } else {
-                match a0 {
-                    Expr::Lit(_) | Expr::Path(_) => {
-                        let r = self.r(a0.span());
-                        Some(vec![Piece::Src(r.0, r.1)])
-                    }
-                    _ => None,
+                // the default of `map_or` is evaluated eagerly: only forms without effects are hoisted
+                let const_like = match a0 {
+                    Expr::Lit(_) | Expr::Path(_) => true,
+                    Expr::Call(c) => matches!(&*c.func, Expr::Path(_)) && c.args.iter().all(|a| matches!(a, Expr::Lit(_))),
+                    _ => false,
+                };
+                if const_like {
+                    let r = self.r(a0.span());
+                    Some(vec![Piece::Src(r.0, r.1)])
+                } else {
+                    None
                 }
             };
             let some_piece: Option<Vec<Piece>> = match a1 {
